@@ -6,7 +6,7 @@
     [iso g h] = some map injective on the nodes of g relabels g into h up to [geq]. *)
 From Coq Require Import List NArith ZArith Bool Arith Permutation.
 From SK Require Import lib.IRSortKeys lib.IRCore lib.IRSearch model.C18_Model proof.C18_Order proof.C18_Spec
-  proof.C18_Graph proof.C18_Canon proof.C18_Equiv proof.C18_Label proof.C18_Aut proof.C18_Invariant proof.C18_Wf proof.C18_Count proof.C18_Examples.
+  proof.C18_Graph proof.C18_Canon proof.C18_Equiv proof.C18_Label proof.C18_Aut proof.C18_Invariant proof.C18_Wf proof.C18_Count proof.C18_View proof.C18_Examples.
 From SK Require lib.IRInst.
 Import ListNotations.
 
@@ -69,17 +69,16 @@ Theorem C18_leaves_equivariant : forall (f : N -> N), (forall x y, f x = f y -> 
 Proof. exact leaves_of_rel. Qed.
 Print Assumptions C18_leaves_equivariant.
 
-(** Clause 2 (invariance): a view [g'] that is [g] with its nodes renamed by an injective map (species renamed,
-    reaction ids regenerated) and its node / arc lists in any other order (reactions re-ordered) receives the same
-    minimal label and the identical canonical graph.  [kinds_ok] / [arcs_ok]: kinds are 'reaction' / 'species', role is
-    None / 'product' / 'reactant', stoich is None or a non-negative integer (the domain on which the label string can be
-    read back). *)
-Theorem C18_canon_invariant : forall (f : N -> N), (forall x y, f x = f y -> x = y) ->
-  forall (g g' : vgraph) (lab p lab' p' : list N),
-  wf g -> kinds_ok g -> arcs_ok g -> geq g' (relabel f g) ->
+(** Clause 2 (invariance): a view [g'] that is [g] with its nodes renamed by a map that is injective on the nodes of
+    [g] (species renamed, reaction ids regenerated) and its node / arc lists in any other order (reactions re-ordered)
+    receives the same minimal label and the identical canonical graph.  [kinds_ok] / [arcs_ok]: kinds are 'reaction' /
+    'species', role is None / 'product' / 'reactant', stoich is None or a non-negative integer (the domain on which
+    the label string can be read back; C18_view_wf shows every view is in it). *)
+Theorem C18_canon_invariant : forall (f : N -> N) (g g' : vgraph) (lab p lab' p' : list N),
+  inj_on f (node_ids g) -> wf g -> kinds_ok g -> arcs_ok g -> geq g' (relabel f g) ->
   fst (canon_search g) = Some (lab, p) -> fst (canon_search g') = Some (lab', p') ->
   lab' = lab /\ geq (canon_graph g' p') (canon_graph g p).
-Proof. exact canon_invariant. Qed.
+Proof. exact canon_invariant_on. Qed.
 Print Assumptions C18_canon_invariant.
 
 (** The premises are decidable; the boolean versions are part of the observable of every correspondence case
@@ -126,3 +125,14 @@ Theorem C18_orbits_partial : forall (g : vgraph) (lab p : list N) (u v : N),
    (exists q i, In q (min_leaves g) /\ i < length p /\ nth i p 0%N = u /\ nth i q 0%N = v)).
 Proof. exact orbit_pairs. Qed.
 Print Assumptions C18_orbits_partial.
+
+(** Every network gives views inside the domain of the theorems: both views of a network whose coefficients are
+    positive and whose reactions only mention listed species (what CRNHyperGraph guarantees) are well-formed graphs with
+    kinds / roles / stoichiometries in range.  (A species label equal to a reaction id does not break this: the two
+    nodes are merged, which is the known finding above.) *)
+Theorem C18_view_wf : forall (bip st : bool) (n : net),
+  (forall r, In r (nrxns n) -> forall sc, In sc (lhs r ++ rhs r) -> (0 < snd sc)%Z) ->
+  (forall r, In r (nrxns n) -> forall sc, In sc (lhs r ++ rhs r) -> In (fst sc) (nspecies n)) ->
+  wf (view bip st n) /\ kinds_ok (view bip st n) /\ arcs_ok (view bip st n).
+Proof. exact view_GI. Qed.
+Print Assumptions C18_view_wf.
